@@ -51,8 +51,8 @@ CONSTANTS NSplits, NRec, NOps,
           MaxBarriers, MaxTicks,
           MaxRead,      \* largest batch the reader returns
           WithEOI,      \* the reader reports end of input after the last record
-          KeyOf,        \* <<  <<key of split 1 idx 1, ...>>, ... >>
-          OwnerOf,      \* [key |-> operator]
+          NKeys,        \* keys 1..NKeys; key k is owned by operator ((k-1) % NOps) + 1
+          KeyCode,      \* key of record (sp, idx) = digit (sp-1)*NRec + idx-1 of KeyCode in base NKeys, + 1
           MaxLen
 
 VARIABLES cursor, order, cuts, stream,                       \* ghost / observable
@@ -80,8 +80,12 @@ Cap    == MaxSize                 \* BufferSize = MaxSize: reorder buffer slots 
 Rec(sp, i)  == [t |-> "r", a |-> sp, b |-> i]
 Bar(n)      == [t |-> "b", a |-> n, b |-> 0]
 Wm(k)       == [t |-> "w", a |-> k, b |-> 0]
-Key(r)      == KeyOf[r.a][r.b]
-Owner(r)    == OwnerOf[Key(r)]
+RECURSIVE Pow(_, _)
+Pow(b, e)   == IF e = 0 THEN 1 ELSE b * Pow(b, e - 1)
+KeyAt(sp, i) == ((KeyCode \div Pow(NKeys, (sp - 1) * NRec + i - 1)) % NKeys) + 1
+KeyTab      == [sp \in 1..NSplits |-> [i \in 1..NRec |-> KeyAt(sp, i)]]
+Key(r)      == KeyTab[r.a][r.b]
+Owner(r)    == ((Key(r) - 1) % NOps) + 1
 NoBatch     == [on |-> FALSE, batch |-> <<>>]
 NoWait      == [on |-> FALSE, op |-> 0, batch |-> <<>>]
 NoBlk       == [on |-> FALSE, q |-> <<>>]
